@@ -49,7 +49,7 @@ Local Notation fr_tr := (fr_tr P cfg PI).
 Local Notation fr_rw := (fr_rw P cfg PI).
 Local Notation fr_pi := (fr_pi P cfg PI).
 Local Notation PI_statuses := (pio_statuses P cfg PI HPI).
-Local Notation PI_succ := (pio_succ P cfg PI HPI).
+Local Notation PI_succ_and := (pio_succ_and P cfg PI HPI).
 Local Notation PI_clear := (pio_clear P cfg PI HPI).
 
 Lemma fr_any (evp : event -> Prop) s s' : fr evp s s' -> frT s s'.
@@ -414,11 +414,13 @@ Proof.
       pose proof (plan_scan_fr P cfg PI HPI (S cap) (first (pd_pl (plan P (co P s))))
                     (it_next P cap (plan P (co P s)) (first (pd_pl (plan P (co P s)))))
                     (ba_set_all (N.of_nat n) (ba_init (N.of_nat n))) s Hc Hpi) as F.
-      destruct (plan_scan P cfg (S cap) _ _ _ s) as [s1 tc]. cbn [fst] in F.
+      pose proof (plan_scan_tcmask P cfg (S cap) (first (pd_pl (plan P (co P s)))) (it_next P cap (plan P (co P s)) (first (pd_pl (plan P (co P s)))))
+                    (ba_set_all (N.of_nat n) (ba_init (N.of_nat n))) s (tm_full cfg)) as Htc.
+      destruct (plan_scan P cfg (S cap) _ _ _ s) as [s1 tc]. cbn [fst] in F. cbn [snd] in Htc.
       eapply fr_trans.
       * eapply fr_weaken; [|apply F]. { intro e. apply noncb_ev_ok. }
         right. exists [], r. split; [exact Er|]. exact (proj2 (pio_next P cfg PI HPI _ [] _ r Hpi Er)).
-      * apply fr_upd_plan. intros; apply PI_succ; assumption.
+      * apply fr_upd_plan. intros; apply PI_succ_and; assumption.
     + pose proof (deliver_fr Root MPlanSucceeded s (set_status P k SSuccess)) as H.
       destruct (deliver P cfg orc Root MPlanSucceeded _) as [s1 k1]. destruct H as (F & _ & _).
       eapply fr_trans.
